@@ -2062,11 +2062,11 @@ func TestHarness(t *testing.T) {
 			}
 			if p := progress.Load(); p != last {
 				last, lastChange = p, time.Now()
-			} else if time.Since(lastChange) > 60*time.Second {
+			} else if time.Since(lastChange) > hx.StallLimit(60*time.Second) {
 				ops, _ := currentHistory.Load().([]string)
 				res.Report(hx.Finding{Kind: "violation", Property: prop, History: ops,
 					Name: prop + " monitor: every segment of a file operation terminates",
-					What: "the implementation did not reach the end of a segment within 60 s of real time (blocked outside any channel wait, e.g. on its mutex)",
+					What: "the implementation did not reach the end of a segment within the load-scaled stall limit (at least 240 s of real time) (blocked outside any channel wait, e.g. on its mutex)",
 					Sig:  hx.Sig(prop, "fileref", "hang")})
 				res.ModelLines = drv.Lines
 				res.Write(o)
@@ -2121,6 +2121,13 @@ func TestHarness(t *testing.T) {
 		if err != nil {
 			fmt.Fprintln(os.Stderr, err)
 			os.Exit(3)
+		}
+		if isHandlesHistory(f.History) { // finding of the handle allocator part (handles_test.go)
+			if !hangsOnly {
+				runHandles(o, res, f.History)
+			}
+			res.Write(o)
+			return
 		}
 		out := runHistory(t, f.History, drv, false, nil)
 		account(&out)
@@ -2181,5 +2188,9 @@ func TestHarness(t *testing.T) {
 	}
 	sort.Strings(keys)
 	res.ModelLines = drv.Lines
+	if !hangsOnly { // handle allocator part (handles_test.go, model drv_handles)
+		res.Rule += "; " + handlesRule
+		runHandles(o, res, nil)
+	}
 	res.Write(o)
 }
